@@ -1,4 +1,5 @@
 import Mitx.Lemmas.Depend
+import Mitx.Lemmas.DependFormula
 /-! # C13 — sampled variable sets are complete and dependent values are consistent
 
 Model: `Dp.genSample` (`gen_symbols_samples`, one sample), `Dp.resolve`/`Dp.sweep` (the fixed-point loop),
@@ -565,5 +566,20 @@ example : genSample ([] : Dict Int) ["x"] [] [⟨"x", ["zz", "q"], fun _ => 0⟩
 
 example : numberedMatch ["b", "Cat"] "Cat_{-17}" = some "Cat" ∧ numberedMatch ["b"] "b_{05}" = none ∧
     numberedMatch ["b"] "B_{0}" = none ∧ numberedMatch ["b"] "b_{-0}" = none := by decide
+
+
+/-! ## the locality assumption is a theorem for formula-defined dependents -/
+
+/-- **`Local` is not an article of faith**: for a DependentSampler whose value is a parsed formula evaluated on the sample
+    (`depends` = the variables the parser reports for it — exact by C10's `usage_exact`), two samples that agree on those
+    variables give the same value. Proved from the substitution lemma over parse trees (`evalT_mapVars`), for the rational
+    evaluator with failing values propagated. -/
+theorem dependent_formula_local (name : String) (t : C03.T) : Local (formulaDep name t) :=
+  formulaDep_local name t
+
+/-- and its `depends` list is exactly the set of variable names occurring in the formula -/
+theorem dependent_formula_deps (name : String) (t : C03.T) (s : String) :
+    s ∈ (formulaDep name t).deps ↔ (C03.Kind.var, s) ∈ C03.names t :=
+  mem_varNames
 
 end C13
